@@ -131,11 +131,80 @@ def sweep(res, tier, check, RemoteWorker, PersistentRemoteWorker):
             x.wait(10)
     finally:
         server.terminate(force=True)
+    server_dies_while_the_child_starts(res, RemoteWorker, PersistentRemoteWorker)
 
 
 class ExitOnUnpickle:
     def __reduce__(self):
         return (os._exit, (7,))
+
+
+class ParkOnUnpickle:
+    """pins an instant of the start-up: the payload is rebuilt in the backend child only, after it was spawned and before it
+    reports its identity; the child says where it is and waits there until it is told to go on"""
+
+    def __init__(self, d):
+        self.d = d
+
+    def __reduce__(self):
+        return (_park, (self.d,))
+
+
+def _park(d):
+    open(os.path.join(d, 'parked'), 'w').write(str(os.getpid()))
+    t0 = time.time()
+    while not os.path.exists(os.path.join(d, 'go')) and time.time() - t0 < 15:
+        time.sleep(0.02)
+    return 0
+
+
+def server_dies_while_the_child_starts(res, RemoteWorker, PersistentRemoteWorker):
+    """the server process is killed after it has spawned the backend child and before it has answered the child's identity
+    report: the constructor must raise (or return a worker that is definitely dead) and no child may be left behind"""
+    import signal
+    import tempfile
+    import shutil
+    for cls in (RemoteWorker, PersistentRemoteWorker):
+        server = st.start_server()
+        d = tempfile.mkdtemp(prefix='pwverif_c20_', dir=os.path.join(core.VERIF, 'scratch'))
+        out = {}
+        th = threading.Thread(target=lambda: out.update(r=construct(lambda: cls(st.sq3, args=(ParkOnUnpickle(d),), host=server.addr))), daemon=True)
+        case = dict(case=[cls.__name__, 'server killed after spawning the child, before answering its identity report'])
+        try:
+            th.start()
+            t0 = time.time()
+            while not os.path.exists(os.path.join(d, 'parked')) and time.time() - t0 < 10:
+                time.sleep(0.02)
+            res.count('outcome:server-dies-while-child-starts'); res.case((cls.__name__, 'server-dies-while-child-starts'), nontrivial=True)
+            if not os.path.exists(os.path.join(d, 'parked')):
+                res.tie('harness:c20-park', 'the backend child never reached the payload (the start-up order changed?)')
+                continue
+            time.sleep(0.05)
+            child = int(open(os.path.join(d, 'parked')).read() or 0)
+            os.kill(server.pid, signal.SIGKILL)
+            time.sleep(0.2)
+            open(os.path.join(d, 'go'), 'w').write('go')
+            th.join(HANG + 5)
+            o, x, dur = out.get('r', ('hang', None, HANG))
+            if o == 'hang':
+                res.violation(case, 'the constructor did not return within 10 s')
+            elif o == 'returned' and (x.is_alive() or x.has_error is None):
+                res.violation(case, 'constructor returned a worker that is neither alive nor definitely dead')
+            t1 = time.time()
+            while child and os.path.exists(f'/proc/{child}') and open(f'/proc/{child}/stat').read().split()[2] != 'Z' and time.time() - t1 < 10:
+                time.sleep(0.1)
+            if child and os.path.exists(f'/proc/{child}') and open(f'/proc/{child}/stat').read().split()[2] != 'Z':
+                res.violation(case, f'the half-started child process {child} is still running 10 s after the server died: a failed construction left a child behind')
+                try:
+                    os.kill(child, signal.SIGKILL)
+                except OSError:
+                    pass
+        finally:
+            try:
+                server.terminate(force=True)
+            except Exception:
+                pass
+            shutil.rmtree(d, ignore_errors=True)
 
 
 def local_kinds(res, ProcessWorker, ThreadWorker):
